@@ -108,6 +108,44 @@ Fixpoint mapM {A B} (f : A -> res B) (l : list A) : res (list B) :=
   end.
 
 Definition templateType (mode : mpdType) (a : asIn) : mpdType := if a_image a then MNumber else mode.
+Definition tsOf (a : asIn) : Z := match a_ts a with Some t => t | None => 1 end.
+
+(** firstAndLastSegmentStart (repair "period range covers listed segments"): start times of the
+    first and the last segment of a timeline whose first <S> carries t; a negative r ends the walk. *)
+Fixpoint flLoop (ss : list pS) (t first last : Z) : Z * Z :=
+  match ss with
+  | [] => (first, last)
+  | s :: r =>
+    let t0 := match p_t s with Some x => x | None => t end in
+    if p_r s <? 0 then (first, last) else
+    flLoop r (u64 (t0 + u64 (u64 (p_r s + 1) * p_d s))) first (u64 (t0 + u64 (u64 (p_r s) * p_d s)))
+  end.
+Definition firstLast (ss : list pS) : option (Z * Z) :=
+  match ss with
+  | [] => None
+  | s0 :: _ => match p_t s0 with None => None | Some t => Some (flLoop ss t t t) end
+  end.
+
+(** The widening of [startPeriodNr, endPeriodNr] so that the first and the last listed segment of
+    every AdaptationSet with a SegmentTimeline have their period ([int(first / periodTicks)]). *)
+Fixpoint widenRange (periodDur : Z) (ases : list asIn) (k0 k1 : Z) : res (Z * Z) :=
+  match ases with
+  | [] => Ok (k0, k1)
+  | a :: rest =>
+    match a_tl a with
+    | None => widenRange periodDur rest k0 k1
+    | Some ss =>
+      match firstLast ss with
+      | None => widenRange periodDur rest k0 k1
+      | Some (f, l) =>
+        let pt := u64 (u64 periodDur * u64 (tsOf a)) in
+        if pt =? 0 then Panic "splitPeriod: integer divide by zero" else
+        let pf := i64 (f / pt) in
+        let pl := i64 (l / pt) in
+        widenRange periodDur rest (if pf <? k0 then pf else k0) (if pl >? k1 then pl else k1)
+      end
+    end
+  end.
 
 Definition splitAS (mode : mpdType) (cont : bool) (snr : Z) (pNr periodDur : Z) (a : asIn) : res asOut :=
   let timeScale := match a_ts a with Some t => t | None => 1 end in
@@ -144,14 +182,20 @@ Definition periodOf (mode : mpdType) (cont : bool) (snr : Z) (periodDur : Z) (as
   do out <- mapM (splitAS mode cont snr pNr periodDur) ases;
   Ok {| pd_nr := pNr; pd_start := pNr * periodDur; pd_as := out |}.
 
+Definition rangeOf (widen : bool) (mode : mpdType) (periodDur : Z) (ases : list asIn) (k0 k1 : Z) : res (Z * Z) :=
+  if widen && negb (match mode with MNumber => true | _ => false end)
+  then widenRange periodDur ases k0 k1 else Ok (k0, k1).
+
 (** the typed error errPeriodDuration (commit e7eedfb: the handler answers it with 400) *)
 Definition rejectMsg : string := "period duration not a multiple of segment duration".
 
 (** [splitPeriod] for [cfg.PeriodsPerHour = &pph]; [astMS = cfg.StartTimeS*1000], [snr =
-    cfg.getStartNr()]; [startTimeMS]/[nowMS] are the wrapTimes fields.  Periods are counted from
+    cfg.getStartNr()]; [startTimeMS]/[nowMS] are the wrapTimes fields.  [widen]: the tree contains
+    the repair that widens the period range to the listed segments (read from the source by the
+    harness; [false] = the code before that repair).  Periods are counted from
     availabilityStartTime (repository commit 961c9dc), the $Number$ startNumber of a period
     includes the configured start number (bde286d). *)
-Definition splitPeriod (pph segDurMS : Z) (mode : mpdType) (cont : bool) (astMS snr : Z) (startTimeMS nowMS : Z)
+Definition splitPeriod (widen : bool) (pph segDurMS : Z) (mode : mpdType) (cont : bool) (astMS snr : Z) (startTimeMS nowMS : Z)
            (ases : list asIn) : res (list period) :=
   if pph =? 0 then Panic "splitPeriod: integer divide by zero" else
   let periodDur := Z.quot 3600 pph in
@@ -159,8 +203,10 @@ Definition splitPeriod (pph segDurMS : Z) (mode : mpdType) (cont : bool) (astMS 
   if negb (Z.rem (periodDur * 1000) segDurMS =? 0) then
     Err rejectMsg else
   if periodDur * 1000 =? 0 then Panic "splitPeriod: integer divide by zero" else
-  let startPeriodNr := Z.quot (startTimeMS - astMS) (periodDur * 1000) in
-  let endPeriodNr := Z.quot (nowMS - astMS) (periodDur * 1000) in
+  do range <- rangeOf widen mode periodDur ases (Z.quot (startTimeMS - astMS) (periodDur * 1000))
+                                               (Z.quot (nowMS - astMS) (periodDur * 1000));
+  let startPeriodNr := fst range in
+  let endPeriodNr := snd range in
   (* make([]*m.Period, 0, nrPeriods) *)
   if endPeriodNr - startPeriodNr + 1 <? 0 then Panic "splitPeriod: makeslice: cap out of range" else
   mapM (periodOf mode cont snr periodDur ases) (seqZ startPeriodNr (Z.to_nat (endPeriodNr - startPeriodNr + 1))).
@@ -178,11 +224,11 @@ Definition pphRangeMsg : string := "periods per hour must be in the range 1-3600
     of periods-per-hour (commit 9fbd9f7; answered 400), then splitPeriod with the wrap times, and
     the publishTime that replaces the single-period one in $Number$ mode ([None]: publishTime
     left as computed before).  [startNr c] is cfg.getStartNr(). *)
-Definition livePeriods (loopMS : Z) (c : tcfg) (nowMS tsbdMS : Z) (pph segDurMS : Z) (mode : mpdType)
+Definition livePeriods (widen : bool) (loopMS : Z) (c : tcfg) (nowMS tsbdMS : Z) (pph segDurMS : Z) (mode : mpdType)
            (cont : bool) (ases : list asIn) : res (list period * option Z) :=
   if (pph <=? 0) || (3600 <? pph) then Err pphRangeMsg else
   let wt := calcWrapTimes loopMS c nowMS tsbdMS in
-  do ps <- splitPeriod pph segDurMS mode cont (startS c * 1000) (startNr c) (startTimeMS wt) (wnowMS wt) ases;
+  do ps <- splitPeriod widen pph segDurMS mode cont (startS c * 1000) (startNr c) (startTimeMS wt) (wnowMS wt) ases;
   match mode with
   | MNumber => do pt <- lastPeriodStartTime (startS c) ps; Ok (ps, Some pt)
   | _ => Ok (ps, None)
